@@ -400,18 +400,18 @@ Definition lnode_eqb (a b : lnode) : bool :=
 
 Definition link_eqb (a b : link) : bool := pair_eqb lnode_eqb lnode_eqb a b.
 
-Fixpoint remove_one (x : link) (l : list link) : option (list link) :=
+Fixpoint remove_one {A : Type} (eqb : A -> A -> bool) (x : A) (l : list A) : option (list A) :=
   match l with
   | [] => None
-  | y :: r => if link_eqb x y then Some r
-              else match remove_one x r with Some r' => Some (y :: r') | None => None end
+  | y :: r => if eqb x y then Some r
+              else match remove_one eqb x r with Some r' => Some (y :: r') | None => None end
   end.
 
-(** multiset equality of link lists *)
-Fixpoint perm_eqb (l1 l2 : list link) : bool :=
+(** multiset equality *)
+Fixpoint perm_eqb {A : Type} (eqb : A -> A -> bool) (l1 l2 : list A) : bool :=
   match l1 with
   | [] => match l2 with [] => true | _ => false end
-  | x :: r => match remove_one x l2 with Some l2' => perm_eqb r l2' | None => false end
+  | x :: r => match remove_one eqb x l2 with Some l2' => perm_eqb eqb r l2' | None => false end
   end.
 
 (** the event prefix up to and including the first component connect call *)
@@ -439,16 +439,55 @@ Definition c19_model (t : c19_case) : c19_obs :=
   mkObs vr vev cr (upto_connect cev)
         (match cr with RDone => Some (metadata_links t) | RRaised _ => None end).
 
+(** The comparison of the check events does not depend on the order in which the implementation
+    runs the checks (the model runs them in the order of the code as it is now; a reordering would
+    only change which of several defects is reported):
+    - validation passed: the observed events are a permutation of the model's check events;
+    - validation failed: the observed events are checks that pass in the model, followed by a check
+      that fails in the model and [EvRaise]. *)
+Definition check_lookup (t : topo) (k : check_id) (c p : nat) : option (option errkind) :=
+  match find (fun ck => check_id_eqb (fst (fst (fst ck))) k && Nat.eqb (snd (fst (fst ck))) c
+                        && Nat.eqb (snd (fst ck)) p) (all_checks t) with
+  | Some ck => Some (snd ck)
+  | None => None
+  end.
+
+Fixpoint events_fail_ok (t : topo) (l : list event) : bool :=
+  match l with
+  | EvCheck k c p :: r =>
+      match r with
+      | [EvRaise] => match check_lookup t k c p with Some (Some _) => true | _ => false end
+      | _ => match check_lookup t k c p with Some None => events_fail_ok t r | _ => false end
+      end
+  | _ => false
+  end.
+
+Definition events_agree (t : topo) (model obs : list event) : bool :=
+  match validate t with
+  | VOk => perm_eqb event_eqb model obs
+  | VErr _ => events_fail_ok t obs
+  end.
+
+(** connect prefix: as above, and after a successful validation the prefix ends with the connect
+    call of component 0 *)
+Definition cevents_agree (t : topo) (model obs : list event) : bool :=
+  match validate t with
+  | VOk => perm_eqb event_eqb (removelast model) (removelast obs)
+           && option_eqb event_eqb (nth_error model (pred (length model)))
+                                   (nth_error obs (pred (length obs)))
+  | VErr _ => events_fail_ok t obs
+  end.
+
 Definition c19_check (x : c19_case * c19_obs) : bool :=
   let t := fst x in
   let o := snd x in
   let m := c19_model t in
   wfb t
   && result_eqb (ob_validate m) (ob_validate o)
-  && list_eqb event_eqb (ob_vevents m) (ob_vevents o)
+  && events_agree t (ob_vevents m) (ob_vevents o)
   && result_eqb (ob_connect m) (ob_connect o)
-  && list_eqb event_eqb (ob_cevents m) (ob_cevents o)
+  && cevents_agree t (ob_cevents m) (ob_cevents o)
   && match ob_links o with
      | None => true
-     | Some l => match ob_links m with Some lm => perm_eqb lm l | None => false end
+     | Some l => match ob_links m with Some lm => perm_eqb link_eqb lm l | None => false end
      end.
